@@ -132,6 +132,16 @@ def setField (x : String) (v : Val) (el : Val) : Option Val :=
   | .doc es => some (.doc (dset x v es))
   | _ => none
 
+/-- the operator applies an `_updaters` function to the addressed place (`$setOnInsert` only on
+    an insert): these go through `_update_document_fields_positional` -/
+def posFieldsOp (op : String) (wi : Bool) : Option Updater :=
+  match updaterOf op with
+  | some u => some u
+  | none =>
+    if op = "$setOnInsert" then (if wi then some .set else none)
+    else if op = "$currentDate" then some .currentDate
+    else none
+
 /-! ### the classes where the code departs from the rule (each a known finding)
 
 `positional-unconstrained`        the query holds no condition on the array (or hides it in
